@@ -256,6 +256,105 @@ theorem published_initBin (c : Codec α γ) (b : List α) : Published c b (initB
 theorem published_initCbin (c : Codec α γ) (b : List α) : Published c b (initCbin c b) :=
   ⟨Or.inl rfl, Or.inr rfl, Or.inr rfl, by simp [initCbin], Or.inl rfl, Or.inr ⟨rfl, rfl⟩⟩
 
+/-! ### Histories with rewrites of `x.bin` -/
+
+theorem versioned_of_published (c : Codec α γ) (b : List α) (s : Fs α γ) (h : Published c b s) :
+    Versioned c { fs := s, versions := [b], cur := b } := by
+  refine ⟨by simp, h.bin, ?_, h.hdr, ?_, h.held⟩
+  · rcases h.cbin with h1 | h1
+    · exact Or.inl h1
+    · exact Or.inr ⟨b, by simp, h1⟩
+  · rcases h.sbin with h1 | h1
+    · exact Or.inl h1
+    · exact Or.inr ⟨b, by simp, h1⟩
+
+/-- `Versioned` is preserved by every rewrite of `x.bin` and every call in scope, with or without a fault. -/
+theorem versioned_step [DecidableEq α] [DecidableEq γ] (c : Codec α γ) (hc : c.Lossless)
+    (g : Hist α γ) (e : Event α) (hg : Versioned c g) (he : e.inScope) : Versioned c (stepE c g e) := by
+  cases e with
+  | rewrite l =>
+    simp only [stepE]
+    refine ⟨by simp, Or.inr rfl, ?_, hg.hdr, ?_, Or.inl rfl⟩
+    · rcases hg.cbin with h1 | ⟨v, hv, h1⟩
+      · exact Or.inl h1
+      · exact Or.inr ⟨v, by simp [hv], h1⟩
+    · rcases hg.sbin with h1 | ⟨v, hv, h1⟩
+      · exact Or.inl h1
+      · exact Or.inr ⟨v, by simp [hv], h1⟩
+  | call o =>
+    cases o with
+    | compress fb keep fault =>
+      have h := compressFile_cases c hc g.fs fb keep fault
+      simp only at h
+      simp only [stepE, step]
+      rcases h with ⟨hr, _⟩ | ⟨l, j, _, _, _, _, _, hr⟩ | ⟨l, _, hl, _, hr⟩
+      · rw [hr]; exact ⟨hg.cur_mem, hg.bin, hg.cbin, hg.hdr, hg.sbin, hg.held⟩
+      · rw [hr]; exact ⟨hg.cur_mem, hg.bin, hg.cbin, hg.hdr, hg.sbin, hg.held⟩
+      · rw [hr]
+        have : l = g.cur := by rcases hg.bin with h | h <;> simp_all
+        subst this
+        refine ⟨hg.cur_mem, ?_, Or.inr ⟨g.cur, hg.cur_mem, rfl⟩, by simp, hg.sbin, ?_⟩
+        · cases keep <;> simp
+        · cases keep <;> simp
+    | decompress fb keep overwrite fault =>
+      have hf : fault = none := he
+      subst hf
+      have h := decompressFile_cases c g.fs fb keep .bin overwrite none
+      simp only at h
+      simp only [stepE, step]
+      rcases h with ⟨e, _, hr⟩ | ⟨cs, j, _, _, _, hf, _, _⟩ | ⟨cs, _, hcb, hch, _, hr⟩
+      · rw [hr]; exact ⟨hg.cur_mem, hg.bin, hg.cbin, hg.hdr, hg.sbin, hg.held⟩
+      · simp at hf
+      · rw [hr]
+        obtain ⟨v, hv, hcs⟩ : ∃ v ∈ g.versions, cs = v.map c.enc := by
+          rcases hg.cbin with h | ⟨v, hv, h⟩
+          · simp [h] at hcb
+          · exact ⟨v, hv, by simp_all⟩
+        subst hcs
+        have hb := map_dec_enc c hc v
+        cases keep
+        · simp only [Fs.setOut, hb]
+          exact ⟨hv, Or.inr rfl, Or.inl rfl, by simp, hg.sbin, Or.inl rfl⟩
+        · simp only [Fs.setOut, hb, if_true]
+          exact ⟨hv, Or.inr rfl, Or.inr ⟨v, hv, hcb⟩, by simp [hcb, hch], hg.sbin, Or.inl rfl⟩
+    | toScratch fb scratch fault =>
+      have h := toScratch_cases c g.fs fb scratch fault
+      simp only at h
+      simp only [stepE, step]
+      rcases h with ⟨hr, _⟩ | ⟨e, _, hr, _⟩ | ⟨cs, j, _, _, _, _, _, _, hr⟩ | ⟨cs, _, hcb, hch, hno, hr⟩
+      · rw [hr]; cases scratch <;> exact ⟨hg.cur_mem, hg.bin, hg.cbin, hg.hdr, hg.sbin, hg.held⟩
+      · rw [hr]; cases scratch <;> exact ⟨hg.cur_mem, hg.bin, hg.cbin, hg.hdr, hg.sbin, hg.held⟩
+      · rw [hr]; cases scratch <;> exact ⟨hg.cur_mem, hg.bin, hg.cbin, hg.hdr, hg.sbin, hg.held⟩
+      · rw [hr]
+        obtain ⟨v, hv, hcs⟩ : ∃ v ∈ g.versions, cs = v.map c.enc := by
+          rcases hg.cbin with h | ⟨v, hv, h⟩
+          · simp [h] at hcb
+          · exact ⟨v, hv, by simp_all⟩
+        subst hcs
+        have hb := map_dec_enc c hc v
+        cases scratch
+        · -- in place: x.bin was absent, so the current content is the one held by x.cbin
+          simp only [Bool.false_eq_true, if_false] at hno ⊢
+          have hcur : v = g.cur := by
+            rcases hg.held with h | ⟨h, _⟩
+            · simp [hno] at h
+            · rw [hcb] at h
+              have := congrArg (List.map c.dec) (Option.some.inj h)
+              rwa [map_dec_enc c hc, map_dec_enc c hc] at this
+          subst hcur
+          exact ⟨hg.cur_mem, by simp [hb], hg.cbin, hg.hdr, hg.sbin, by simp [hb]⟩
+        · simp only [if_true]
+          exact ⟨hg.cur_mem, hg.bin, hg.cbin, hg.hdr, Or.inr ⟨v, hv, by simp [hb]⟩, hg.held⟩
+
+theorem versioned_run [DecidableEq α] [DecidableEq γ] (c : Codec α γ) (hc : c.Lossless)
+    (evs : List (Event α)) : ∀ (g : Hist α γ), Versioned c g → (∀ e ∈ evs, e.inScope) → Versioned c (runE c g evs) := by
+  induction evs with
+  | nil => intro g hg _; exact hg
+  | cons e es ih =>
+    intro g hg he
+    simp only [runE]
+    exact ih _ (versioned_step c hc g e hg (he e (by simp))) (fun e' h' => he e' (by simp [h']))
+
 /-- The header always describes the compressed file next to it — for EVERY call and every fault
 (including faults inside the plain `decompress_file`), so `Err.corruptHeader` is unreachable. -/
 def HdrOk (s : Fs α γ) : Prop := ∀ cs, s.cbin = some cs → s.ch = some cs
